@@ -43,7 +43,7 @@ TMP="$W/result.tmp"; echo "[" > "$TMP"; FIRST=1
 for P in $PROPS; do
   LOG="$W/$P.log"
   START=$(date +%s)
-  VERIF_DIR="$W/verif" "$W/target/release/amsim" check --property "$P" --tier quick > "$LOG" 2>&1; RC=$?
+  VERIF_DIR="$W/verif" "$W/target/release/amsim" check --property "$P" --tier ${MT_TIER:-quick} > "$LOG" 2>&1; RC=$?
   END=$(date +%s)
   SIGS=$(grep -E "^VIOLATION" "$LOG" | sed -E 's/.*oracle=([^ ]+) signature=([^ ]+).*/\1 \2/' | sort -u | head -8 | jq -R . | jq -s -c .)
   [ $FIRST = 1 ] || echo "," >> "$TMP"; FIRST=0
